@@ -631,9 +631,24 @@ func (rule *RuleExpression) checkIfCondition(str *String, workflowKey string) {
 		line, col := str.Pos.Line, str.Pos.Col
 
 		p := NewExprParser()
-		expr, err := p.Parse(NewExprLexer(src))
+		l := NewExprLexer(src)
+		expr, err := p.Parse(l)
 		if err != nil {
 			rule.exprError(err, line, col)
+			return
+		}
+		if end := l.Offset(); end < len(src) {
+			// The lexer stopped at a "}}" inside the condition, not at the end marker appended
+			// above. The rest of the condition would be ignored silently though it is not a valid
+			// expression as a whole.
+			pre := src[:end-2]
+			nl := strings.LastIndex(pre, "\n")
+			rule.exprError(&ExprError{
+				Message: "unexpected \"}}\" in the middle of \"if\" condition. the condition is not enclosed in ${{ }} so it must be one expression as a whole",
+				Offset:  end - 2,
+				Line:    strings.Count(pre, "\n") + 1,
+				Column:  len([]rune(pre[nl+1:])) + 1,
+			}, line, col)
 			return
 		}
 
